@@ -396,6 +396,12 @@ class C12(c05.C05):
     def make_config(self, rng):
         cfg = super().make_config(rng)
         cfg["restart"] = None
+        # C05's classes with raising overrides stay out of these histories:
+        # what a call cut short by user code leaves behind is C05's subject,
+        # and C12's own operations do not carry C05's guard for that state
+        if "PortVertex" in cfg["vertex_classes"]:
+            cfg["vertex_classes"] = ["Vertex", "SubVertex"]
+        cfg["edge_classes"] = [c for c in cfg["edge_classes"] if c != "BrittleEdge"] or ["DirectedEdge"]
         cfg["ntasks"] = rng.choice([0, 0, 1, 2])  # suspended generator traversals while the client scribbles
         cfg["cache"] = rng.choice(["off", "on", "on", "toggling"])
         cfg["p_scribble"] = rng.choice([0.1, 0.2, 0.35])
